@@ -48,7 +48,7 @@ pub fn roundtrip(rs: &RefSentence) -> TestResult {
 }
 
 pub fn run(rep: &mut Report) {
-    let n = rep.n(200000, 3000000);
+    let n = rep.n(200000, 30000000);
     rep.run_prop(
         "write-parse",
         "generated sentences with any label vector over {boundary, non-boundary, unknown} and tags \
